@@ -37,8 +37,19 @@ def var(name, typ='int'):
 def from_sexp(x, vartypes=None):
     """build the real Loki tree from the wire form of ``E``"""
     vartypes = vartypes or {}
+    if not isinstance(x, list) or not x or isinstance(x[0], list):
+        raise ValueError('malformed E')
     h = str(x[0])
     rec = lambda y: from_sexp(y, vartypes)
+    arity = {'ilit': 2, 'rlit': 2, 'blit': 2, 'pyint': 2, 'var': 2, 'quot': 4, 'pow': 4, 'cmp': 4, 'lnot': 2}
+    if h in arity and len(x) != arity[h]:
+        raise ValueError(f'malformed {h}')
+    if h in ('sum', 'prod') and (len(x) < 3 or str(x[1]) not in ('true', 'false')):
+        raise ValueError(f'malformed {h}')
+    if h in ('quot', 'pow') and str(x[1]) not in ('true', 'false'):
+        raise ValueError(f'malformed {h}')
+    if h in ('land', 'lor') and len(x) < 2:
+        raise ValueError(f'malformed {h}')
     if h == 'ilit':
         return sym.IntLiteral(int(x[1]))
     if h == 'rlit':
@@ -404,3 +415,103 @@ def gen_logical(rng, depth, programmatic=True):
 
 def size(x):
     return 1 + sum(size(c) for c in x[1:] if isinstance(c, list)) if isinstance(x, list) else 0
+
+
+# ------------------------------------------------------------------ source-level generation (frontend-shaped trees)
+
+def gen_text(rng, depth, typ='int'):
+    """random well-formed Fortran arithmetic expression text over the harness variables"""
+    if depth <= 0 or rng.random() < 0.2:
+        r = rng.random()
+        if r < 0.6:
+            return rng.choice(INT_VARS if typ == 'int' or rng.random() < 0.4 else REAL_VARS)
+        if typ == 'real' and r < 0.75:
+            return rng.choice(['1.5', '2.0', '0.25', '0.5'])
+        return str(rng.randint(1, 5))
+    sub = lambda: gen_text(rng, depth - 1, typ)
+    r = rng.random()
+    if r < 0.18:
+        return f'{sub()} + {sub()}'
+    if r < 0.34:
+        return f'{sub()} - {sub()}'
+    if r < 0.50:
+        return f'{sub()} * {sub()}'
+    if r < 0.64:
+        return f'{sub()} / {sub()}'
+    if r < 0.72:
+        return f'(-{sub()})'
+    if r < 0.80:
+        return f'{sub()} ** {rng.choice(["2", "3", "n", "(-n)", "(" + gen_text(rng, 1, "int") + ")"])}'
+    return f'({sub()})'
+
+
+def gen_logical_text(rng, depth):
+    if depth <= 0 or rng.random() < 0.25:
+        r = rng.random()
+        if r < 0.3:
+            return rng.choice(LOG_VARS)
+        t = rng.choice(['int', 'real'])
+        return f'{gen_text(rng, 2, t)} {rng.choice(["==", "/=", "<", "<=", ">", ">="])} {gen_text(rng, 2, t)}'
+    sub = lambda: gen_logical_text(rng, depth - 1)
+    r = rng.random()
+    if r < 0.25:
+        return f'.not. ({sub()})'
+    if r < 0.55:
+        return f'{sub()} .and. {sub()}'
+    if r < 0.8:
+        return f'{sub()} .or. {sub()}'
+    return f'({sub()})'
+
+
+_keepalive = []
+
+
+def frontend_parse(texts, logical=()):
+    """parse expression texts with the real Fortran frontend; returns one rhs tree per text (None where the frontend
+    rejects the text).  Texts are parsed in one routine; on a frontend error the batch is halved recursively."""
+    try:
+        return _frontend_parse(texts, logical)
+    except Exception:
+        if len(texts) <= 1:
+            return [None] * len(texts)
+        h = len(texts) // 2
+        left = frontend_parse(texts[:h], {i for i in logical if i < h})
+        right = frontend_parse(texts[h:], {i - h for i in logical if i >= h})
+        return left + right
+
+
+def _frontend_parse(texts, logical=()):
+    from loki import Subroutine, FindNodes, Assignment
+    from loki.frontend import FP
+    decl = ('  integer :: ' + ', '.join(INT_VARS) + ', ri\n  real :: ' + ', '.join(REAL_VARS) + ', rr\n  logical :: '
+            + ', '.join(LOG_VARS) + ', rl\n')
+    body = ''
+    for i, t in enumerate(texts):
+        lhs = 'rl' if i in logical else 'rr'
+        body += f'  {lhs} = {t}\n'
+    src = f'subroutine harness_exprs({", ".join(INT_VARS + REAL_VARS + LOG_VARS)})\n{decl}{body}end subroutine harness_exprs\n'
+    routine = Subroutine.from_source(src, frontend=FP)
+    _keepalive.append(routine)   # symbols hold weak references to their scope
+    del _keepalive[:-8]
+    return [a.rhs for a in FindNodes(Assignment).visit(routine.body)]
+
+
+def shrink_E(e):
+    """structure-preserving smaller variants of a wire-form E: a subtree replaced by one of its children of the same sort,
+    or one operand dropped from an n-ary node with more than two operands"""
+    if not isinstance(e, list):
+        return
+    h = str(e[0])
+    first = 2 if h in ('sum', 'prod', 'quot', 'pow', 'cmp') else 1
+    kids = [i for i in range(first, len(e)) if isinstance(e[i], list)]
+    arith = {'ilit', 'rlit', 'pyint', 'var', 'sum', 'prod', 'quot', 'pow'}
+    for i in kids:
+        same_sort = (h in arith) == (str(e[i][0]) in arith)
+        if same_sort:
+            yield e[i]
+    if h in ('sum', 'prod', 'land', 'lor') and len(kids) > 2:
+        for i in kids:
+            yield e[:i] + e[i + 1:]
+    for i in kids:
+        for v in shrink_E(e[i]):
+            yield e[:i] + [v] + e[i + 1:]
